@@ -309,10 +309,16 @@ fn publish_to_client(w: &Rc<RefCell<Wire>>, m: &Value) {
     let mut body = vec![];
     body.extend((topic.len() as u16).to_be_bytes());
     body.extend(topic.as_bytes());
+    let qos1 = m["qos1"].as_bool().unwrap_or(false);
+    if qos1 {
+        // packet identifier of a QoS 1 delivery (the client answers with a PUBACK)
+        let id = 1000 + (w.borrow().popped % 50000) as u16;
+        body.extend(id.to_be_bytes());
+    }
     enc_varint(props.len(), &mut body);
     body.extend(props);
     body.extend(payload);
-    let mut pkt = vec![0x30 | if m["retain"].as_bool().unwrap_or(false) { 1 } else { 0 }];
+    let mut pkt = vec![0x30 | if qos1 { 2 } else { 0 } | if m["retain"].as_bool().unwrap_or(false) { 1 } else { 0 }];
     enc_varint(body.len(), &mut pkt);
     pkt.extend(body);
     w.borrow_mut().to_client.extend(pkt);
@@ -456,7 +462,12 @@ where
         Stack(wire.clone()),
         &prefix,
         clk.clone(),
-        minimq::ConfigBuilder::new(localhost.into(), &mut buffer).keepalive_interval(600),
+        {
+            let mut cfg = minimq::ConfigBuilder::new(localhost.into(), &mut buffer).keepalive_interval(sched["keepalive"].as_u64().unwrap_or(600) as u16);
+            if let Some(n) = sched["session"].as_u64() { cfg = cfg.session_state(minimq::config::BufferConfig::Exactly(n as usize)); }
+            if let Some(n) = sched["tx"].as_u64() { cfg = cfg.tx_buffer(minimq::config::BufferConfig::Exactly(n as usize)); }
+            cfg
+        },
     )
     .unwrap();
     let mut s = S::init(&sched["init"]);
@@ -525,7 +536,10 @@ where
             (_, Ok(Err(e))) => json!({"err": format!("{e:?}").chars().take(60).collect::<String>()}),
         };
         if r.is_err() {
-            steps.push(json!({"before": probe_json(&pb, remaining_before), "update": upd, "api": api, "oracle": oracle}));
+            // what the client handed to the socket before it panicked
+            let packets = broker(&wire, &mut br, true);
+            steps.push(json!({"before": probe_json(&pb, remaining_before), "update": upd, "api": api, "oracle": oracle, "packets": packets,
+                              "now": *clk.0.borrow(), "values": values_before}));
             break;
         }
         let unread = wire.borrow().to_client.len();
@@ -558,7 +572,7 @@ where
 }
 
 fn main() {
-    std::panic::set_hook(Box::new(|_| {}));
+    if std::env::var("VERIF_PANIC_MSG").is_err() { std::panic::set_hook(Box::new(|_| {})); }
     let stdin = std::io::stdin();
     for line in stdin.lock().lines() {
         let line = line.unwrap();
